@@ -77,6 +77,11 @@ func (h *Handler) handleDiscover(p packet.DHCP4, options packet.DHCP4Options) (d
 		}
 	}
 
+	// a retained offer may have been given to somebody else in the meantime
+	if lease.IPOffer.IsValid() && h.taken(lease, lease.IPOffer) {
+		lease.IPOffer = netip.Addr{}
+	}
+
 	if !lease.IPOffer.IsValid() {
 		if err := h.allocIPOffer(lease, reqIP); err != nil {
 			Logger.Msg("discover all ips allocated, failing silently").Error(err).Write()
